@@ -366,8 +366,9 @@ func writeEvidenceFile(id, tier string, seed int, rr *runResult, expected []stri
 		"fresh allocations lie above an allocation watermark (never overlap earlier blocks)")
 	level := "proof"
 	cov := map[string]interface{}{
-		"obligations":              len(expected),
+		"obligations":              len(expected) - nKnown, // obligations of open known findings are reported separately
 		"discharged":               discharged,
+		"known_findings":           knownList,
 		"checker_cmd":              fmt.Sprintf("/verif/bin/govc check -property %s -tier %s", id, tier),
 		"trusted_base":             trusted,
 		"functions_under_contract": funcs,
